@@ -29,6 +29,7 @@ type Config struct {
 	Points       []string // enabled scheduling points ("*" = all)
 	PointLimit   int
 	NoServer     bool // the B end is left to the test (wire-level peer)
+	NoClient     bool // the A end is left to the test (wire-level peer)
 }
 
 // Step is one scripted API call of an actor.
@@ -253,7 +254,9 @@ func NewWorld(cfg Config, rpcs []RPC) *World {
 		srv := drpcserver.NewWithOptions(handler{w}, drpcserver.Options{Manager: mopts})
 		go func() { defer close(w.srvDone); w.srvErr = srv.ServeOne(ctx, w.B) }()
 	}
-	w.Conn = drpcconn.NewWithOptions(w.A, drpcconn.Options{Manager: mopts})
+	if !cfg.NoClient {
+		w.Conn = drpcconn.NewWithOptions(w.A, drpcconn.Options{Manager: mopts})
+	}
 	return w
 }
 
@@ -852,6 +855,9 @@ func (w *World) Quiesce() { WaitQuiescent() }
 
 // Closed reports whether the client connection reports itself closed.
 func (w *World) Closed() bool {
+	if w.Conn == nil {
+		return false
+	}
 	select {
 	case <-w.Conn.Closed():
 		return true
@@ -873,8 +879,9 @@ func (w *World) Drain() []GInfo {
 		c()
 	}
 	w.mu.Unlock()
-	closed := make(chan struct{})
-	go func() { _ = w.Conn.Close(); close(closed) }()
+	if w.Conn != nil {
+		go func() { _ = w.Conn.Close() }()
+	}
 	w.CancelServer()
 	for i := 0; i < 20000; i++ {
 		WaitQuiescent()
